@@ -282,3 +282,36 @@ Proof.
     + apply N1. rewrite <- E, <- A1. apply in_map. exact Hq'.
     + apply N2. rewrite <- E, <- A2. apply in_map. exact Hq'.
 Qed.
+
+(* ---------- x + y on an arbitrarily nested space (fresh output element t) ---------- *)
+Section NestedAdd.
+Context {T : Type} {N : Num T} {F : NumField T}.
+Add Field Tfield3 : nf_field.
+Variable flg : nat -> bool * bool.
+Variable bdtf : nat -> bool.
+Variable icast : T -> T.
+
+Lemma vlin_one_one (u v : list T) : vlin (of_Z 1) u (of_Z 1) v = vadd u v.
+Proof.
+  apply nth_error_ext; intro k. unfold vlin, vadd. rewrite !nth_error_vmap2.
+  destruct (nth_error u k), (nth_error v k); try reflexivity. f_equal. rewrite nf_of1. ring.
+Qed.
+
+Theorem nested_add_correct (sp : space) (x y t : elem) (s : store T) :
+  conf sp x -> conf sp y -> conf sp t ->
+  NoDup (flat t) -> (forall i, In i (flat t) -> ~ In i (flat x) /\ ~ In i (flat y)) ->
+  lens_ok s (quads sp x y t) ->
+  exists s', w_add flg bdtf icast sp x y t s = Ok s'
+    /\ (forall q, In q (quads sp x y t) -> q_fl q = true ->
+          s' (q_out q) = vadd (s (q_x1 q)) (s (q_x2 q)))
+    /\ (forall j, ~ In j (flat t) -> s' j = s j).
+Proof.
+  intros Cx Cy Ct Hnd Hdis Hlen.
+  pose proof (wf_fresh_elem sp x y t Cx Cy Ct Hnd Hdis) as Hwf.
+  destruct (ps_lincomb_correct flg bdtf icast sp (of_Z 1) (of_Z 1) x y t s Cx Cy Ct Hwf Hlen)
+    as (s' & E & Hres & Hfr).
+  exists s'. split; [exact E|]. split.
+  - intros q Hq Hfl. rewrite (Hres q Hq), Hfl. cbn [cast_of]. rewrite map_id. apply vlin_one_one.
+  - intros j Hj. apply Hfr. destruct (quads_flat sp x y t Cx Cy Ct) as (_ & _ & A3). rewrite A3. exact Hj.
+Qed.
+End NestedAdd.
